@@ -79,7 +79,9 @@ CLAIMED.update({
             "C02_fenced_rejects_torn_read. Runs of any length: C02_RA_window replaces the bound on the number of write() calls by the window condition 'no snapshot() iteration spans 32767 or "
             "more completed publications' (the generation may wrap any number of times; C02_generation_cycle: the k-th publication stores 2*((k-1) mod 32767)+2; "
             "C02_window_values_distinct; C02_short_runs_have_short_windows: C02_RA is the special case). C02_aba_witness shows the window condition is tight (known finding C02-aba, "
-            "re-found on the real code every run).",
+            "re-found on the real code every run). The machine is proved to be the standard view-based semantics of release/acquire (per-location timestamps, cur/acq views, "
+            "message views) for a single-writer log: C02_loads_are_standard_loads, C02_reader_is_the_program, C02_reader_runs_are_standard_runs (lock step under any growth of the log), "
+            "C02_new_client_has_the_full_view, C02_writer_accesses_are_standard, C02_published_views_are_never_revised (Shm/MachineGen.v).",
             SHM_NOTE, "DESIGN.md section 6, C02"),
     "C03": ("Coq proof over the release/acquire machine (per-reader invariant 'the cached record is the record of the write() call whose even store sits at a position the reader "
             "can no longer look behind', inductive over every reader step and stable under log growth; lifted to runs by induction over the schedule) + computed examples "
